@@ -178,7 +178,15 @@ impl Project for FileBackedProject {
 
         // Do the analysis
         match analyze(&all_libraries) {
-            Ok(_) => Ok(()),
+            Ok(_) => {
+                // The files that could be analyzed are valid, but that does
+                // not make a file that could not be parsed valid.
+                if all_diagnostics.is_empty() {
+                    Ok(())
+                } else {
+                    Err(all_diagnostics)
+                }
+            }
             Err(diagnostics) => {
                 // If we had an error, then add more diagnostics to any that we already had
                 all_diagnostics.extend(diagnostics);
